@@ -40,7 +40,7 @@ man = dict(
         source_commits=hooks_commits,
         add_only=True,
     ),
-    engines=[dict(name=e, path="/verif/harness/src/" + e + ".rs", serves_properties=sorted(ps),
+    engines=[dict(name=e, path="/verif/harness/src/" + ("txn" if e in ("recv", "send") else e) + ".rs", serves_properties=sorted(ps),
                   kind_free_text="Rust harness engine driving the real code + Lean model driver (lean/Driver/Main.lean) on the same op lines; implementation-level oracle")
              for e, ps in sorted(engines.items())],
     checks=checks,
